@@ -21,10 +21,11 @@ func TestIndexSearchValidity(t *testing.T) {
 		MaxIds: pbt.Pick(14, 40), MinSteps: 4, MaxSteps: pbt.Pick(40, 90), MaxDim: 4,
 		//                 ins rem upd s/l srch get
 		Weights: [6]int{8, 5, 3, 1, 6, 0},
+		Tall:    true,
 	})
 	pbt.Run(t, pbt.Prop[idxsm.History]{
 		ID: "C01", Name: "TestIndexSearchValidity",
-		Rule:     "rapid-generated histories of insert/remove/update/save-load/search on one index.Hnsw (M in {1,2,3,4,8,16} or defaults, ef 1..32, both selection modes, 3 metrics, ids from a small pool so re-inserts and duplicates recur, grid vectors for ties); every search result is judged by the validity predicate (live id, current metadata, true score, ascending, distinct, <=k, non-empty when the model is non-empty) and structural invariants (live entry point, true cached distances) hold after every mutation; non-trivial = a k>=1 search on a non-empty collection after >=1 removal; distinct = distinct case JSON",
+		Rule:     "rapid-generated histories of insert/remove/update/save-load/search on one index.Hnsw (M in {1,2,3,4,8,16} or defaults, ef 1..32, both selection modes, 3 metrics, ids from a small pool so re-inserts and duplicates recur, grid vectors for ties; a quarter of the histories with M in {1,2} and mostly multi-layer items; half of the removes aimed at the current entry point or its nearest top-layer neighbour); every search result is judged by the validity predicate (live id, current metadata, true score, ascending, distinct, <=k, non-empty when the model is non-empty) and structural invariants (live entry point, true cached distances) hold after every mutation; non-trivial = a k>=1 search on a non-empty collection after >=1 removal; distinct = distinct case JSON",
 		Gen:      func(t *rapidT) idxsm.History { return g.Draw(t, "history") },
 		Replicas: pbt.Pick(3, 6),
 		Check: func(h idxsm.History, o *pbt.Obs) *pbt.Failure {
